@@ -676,6 +676,10 @@ PROPS["C01"]["families"].append(dict(family="client", trace_module="Trace_Client
 # the same random schedules with a formatting subscriber at TRACE level installed: every log statement's arguments are evaluated
 PROPS["C01"]["families"].append(dict(client_family([], 700, 10000, {"faults": 0, "sub": "fmt"}), tag="fmt", no_mech=True))
 PROPS["C08"]["families"].append(dict(server_family([], 700, 10000, {"fresh": 0, "faults": 0, "appdrop": 0, "sub": "fmt"}), tag="fmt", no_mech=True))
+PROPS["C03"]["families"].append(dict(client_family([], 500, 8000, {"faults": 0, "sub": "fmt"}), tag="fmt", no_mech=True))
+PROPS["C05"]["families"].append(dict(client_family([], 500, 8000, {"faults": 0, "sub": "fmt"}), tag="fmt", no_mech=True))
+PROPS["C06"]["families"].append(dict(server_family([], 500, 8000, {"fresh": 1, "faults": 0, "sub": "fmt"}), tag="fmt", no_mech=True))
+PROPS["C12"]["families"].append(dict(server_family([], 500, 8000, {"fresh": 1, "faults": 0, "limit": "some", "sub": "fmt"}), tag="fmt", no_mech=True))
 PROPS["C02"]["families"].append(burst_family("reply", "deadline", "fault"))
 # the server's and the handlers' wake-ups: the request stream alone (Inv_C02s: everything pushed is read, a closed peer is
 # noticed, at settle points) and real client -> server -> handler chains (nothing pending at quiescence)
